@@ -811,3 +811,29 @@ def rule_double_cleanup(u, rep, scope_files, crate="epserde", rule="DOUBLE-CLEAN
     rep.count("manual_cleanup_functions", n)
     rep.count("cleanup_guard_types", len(guards_))
     return n
+
+
+def rule_copying_loaders(u, rep, rule="COPY"):
+    """load_mem and load_mmap own a private copy: on every successful path the file is read (read_exact on the file)
+    into a region the loader allocated itself -- a raw allocation or an anonymous mapping -- and the file is never
+    mapped (`with_file` belongs to `mmap` alone). A private file mapping would alias the page cache: the structure
+    changes when the file is rewritten and reading it faults after a truncation."""
+    n = 0
+    for b in loaders(u):
+        name = b.d.get("name")
+        if name not in ("load_mem", "load_mmap"):
+            continue
+        ip, paths = run_explicit(u, b)
+        oks = [p for p in paths if outcome_of(u, p)[0] == "ok"]
+        for p in oks[:8]:
+            n += 1
+            reads = [e for e in p.events if e[0] == "R" and len(e) > 3 and e[2] == "B"]
+            maps_file = [e for e in p.events if e[0] == "Call" and e[2] in ("with_file", "with_file_unchecked", "map_file")]
+            ok = bool(reads) and not maps_file
+            rep.oblige(ok)
+            if not ok:
+                why = "maps the file (%s) instead of copying it" % maps_file[0][2] if maps_file else "returns a structure without having read the file into its own region"
+                rep.add(rule, name, "%s %s: the backing memory is not a private copy owned by the result" % (name, why), b.loc())
+                break
+    rep.count("copying_loader_paths", n)
+    return n
